@@ -125,6 +125,16 @@ def tstr(rng, s):
 GRID_T = [283.15, 298.15, 313.15, 323.15, 333.15, 353.15, 373.15]
 
 
+def edge_temperature(rng, lo=273.0, hi=400.0, p_edge=0.08):
+    """a temperature of the quantifier's range [lo, hi]; with probability p_edge within a fraction of a kelvin of (or at) its ends"""
+    u = rng.random()
+    if u < p_edge / 2:
+        return rng.choice([lo, lo + rng.uniform(0.0, 0.2), 273.15])
+    if u < p_edge:
+        return rng.choice([hi, hi - rng.uniform(0.0, 0.2)])
+    return rng.uniform(lo, hi)
+
+
 def some_temperature(rng, lo=273.0, hi=400.0, p_grid=0.3):
     """a temperature in [lo, hi]; with probability p_grid from a small grid, so that distinct objects meet at EQUAL arguments"""
     if rng.random() < p_grid:
